@@ -20,6 +20,7 @@
 From Coq Require Import ZArith NArith List Bool String.
 From MV Require Import C17.Model Gen.C17.
 Import ListNotations.
+Open Scope list_scope.
 
 (* ---------------------------------------------------------------- operations tree *)
 
